@@ -204,6 +204,18 @@ def _setitem_ok(p: PathSummary, container: str, key_ok: Callable, val_ok: Callab
     return False
 
 
+def check_body_edits(rep: Report, sums: List[OpSummary]):
+    n = 0
+    for s in sums:
+        for p in s.normal:
+            n += 1
+            for meth, line in p.state.body_other:
+                if meth in ("__len__", "__iter__", "__getitem__", "index", "count"):
+                    continue
+                rep.bad("C05.dataflow", s.oc.cls.qualname + ".run", f"handler-edits-body:{meth}", f"{s.name} calls module_body.{meth}(...) (line {line}): statements already emitted are rewritten, but names they bound may still be referenced from the memo, a DUP copy or the stack - the decompiled program then refers to a variable that is never assigned (or assigned something else)", s.run.file, line)
+    rep.ok("C05.dataflow", "fickling.fickle.*", f"{n} handler paths: the module body is append-only", "")
+
+
 def check_in_place(rep: Report, sums: List[OpSummary]):
     by = {s.name: s for s in sums}
     for name, label in IN_PLACE.items():
@@ -311,6 +323,7 @@ def run(rep: Report, tier: str):
     sums = all_summaries(repo)
     rep.units = {"opcode_classes": len(sums), "paths": sum(len(s.paths) for s in sums)}
     check_dataflow(rep, sums)
+    check_body_edits(rep, sums)
     check_in_place(rep, sums)
     check_ast_fields(repo, rep, sums)
     from .c09 import check_memo
